@@ -87,7 +87,7 @@ def check(run):
         run.guard("C03.via.C08.2.positional", cfg, lambda: _C08.rule_positional(b2p, F, cfg))
         from . import C02 as _C02rc
         brc = run.borrow("C02", only=r"regex-text-case|builders-", why="$match-case and its absence are options: every regex built for a rule (also the fallback set after a member failed to compile) ignores case exactly when the rule does")
-        run.guard("C03.via.C02.3.regex-translation", cfg, lambda: (_C02rc.rule_regex_case(brc, F, cfg), _C02rc.rule_translation(brc, F, cfg)))
+        run.guard("C03.via.C02.3.regex-translation", cfg, lambda: (_C02rc.rule_regex_case(brc, F, cfg), _C02rc.rule_regex_builder(brc, F, cfg)))
 
 
 def option_arms(F):
